@@ -487,6 +487,8 @@ func (s *Server) Clear() {
 	// we do not drain InitDoneChannel, because Init is only done once during rapid lifetime
 
 	drainChannel(s.InvokeDoneChan)
+	// the init error cached for the generation that is being reset must not answer later failures
+	s.setCachedInitErrorResponse(nil)
 	s.Release()
 }
 
